@@ -68,6 +68,8 @@ func runC03(w *World, r *Report) {
 	if errOverwritten(w, r, "C03/ERROR-KEPT", []string{"pkg/action", "pkg/kube"}) == 0 {
 		r.OKTrivial("C03/ERROR-KEPT", "none", "-", "no error is carried across loop iterations")
 	}
+	r.Rule("C03/CREATE-ERROR-KEPT", "a cluster create that was rejected fails the operation: its non-nil error is handed back by pkg/kube whatever its kind", 1)
+	c07CreateErrorKept(w, r, "C03/CREATE-ERROR-KEPT")
 }
 
 // ---- failers -----------------------------------------------------------------------------------
